@@ -136,7 +136,7 @@ def snapshot(ctx, L, rule="R-SNAPSHOT"):
     tables = ["_rcv_buffer", "_snd_buffer"] + (["_multi_pg_snd_buffer"] if L.fd else [])
     n = 0
     for node in [x for jf in job_funcs(ctx, L) for x in ast.walk(jf.node)]:
-        if isinstance(node, ast.For):
+        if isinstance(node, (ast.For, ast.comprehension)):
             names = [x.attr for x in ast.walk(node.iter) if isinstance(x, ast.Attribute) and x.attr in tables]
             if not names:
                 continue
@@ -149,8 +149,8 @@ def snapshot(ctx, L, rule="R-SNAPSHOT"):
             if ok:
                 ctx.holds(rule, inst)
             else:
-                ctx.violated(rule, L.job, inst, "the scan iterates the live dict: an insertion by the receive path raises "
-                             "'dictionary changed size during iteration' in the job thread", node)
+                ctx.violated(rule, L.job, inst, "the scan iterates the live dict (or a view of it, step by step): an insertion or removal by the receive "
+                             "path raises 'dictionary changed size during iteration' in the job thread", node if hasattr(node, "lineno") else node.iter)
     if n < len(tables):
         ctx.unknown(rule, "scan loops not found (%d of %d)" % (n, len(tables)))
 
@@ -640,3 +640,63 @@ def loop_progress(ctx, classes, rule="R-LOOP-PROGRESS"):
                     ctx.holds(rule, inst)
     if n == 0:
         ctx.unknown(rule, "no while loops found in %s" % (classes,))
+
+
+def pair_order(ctx, L, rule="R-PAIR-ORDER"):
+    """state and deadline of a send session form a pair that the receive path updates together (state first, deadline second) and
+    the job pass reads in the opposite order (deadline first, state second): whoever sees the new deadline also sees the new state.
+    (a) the job scan samples `state` only after it has tested the deadline; (b) receive-path handlers that store both store the
+    state first."""
+    from .flow import scan_runs
+    from .timing import _reached
+
+    def reads_state(node):
+        return any(isinstance(x, ast.Subscript) and isinstance(x.ctx, ast.Load) and isinstance(x.slice, ast.Constant) and x.slice.value == "state"
+                   for x in ast.walk(node)) if isinstance(node, ast.AST) else False
+    bad = None
+    n = 0
+    for r in scan_runs(ctx, L, "_snd_buffer"):
+        E = _reached(r)
+        if E is None:
+            continue
+        dl = sub(E, "deadline")
+        idx_d = None
+        idx_s = None
+        for j, rec in enumerate(r.recs):
+            if idx_d is None and rec.cond is not None and contains(rec.cond, dl) and any(x[0] == "cmp" and x[1] == "<" for x in walk(rec.cond)):
+                idx_d = j
+            if idx_s is None and rec.ev.kind in ("stmt", "cond") and reads_state(rec.ev.node):
+                idx_s = j
+        if idx_s is None or idx_d is None:
+            continue
+        n += 1
+        if idx_s < idx_d and bad is None:
+            bad = r.recs[idx_s].ev.node
+    inst = "%s job scan reads the session's state only after the deadline test" % L.tag
+    if n == 0:
+        ctx.unknown(rule, "%s: no expiry path with a state dispatch found" % L.job.qual)
+    elif bad is not None:
+        ctx.violated(rule, L.job, inst, "the state is sampled before the deadline is tested: a CTS / acknowledgement handled in between updates both, and "
+                     "this pass then acts on the OLD state with the NEW (already reached) deadline - e.g. the WAITING_CTS timeout aborts a healthy session", bad)
+    else:
+        ctx.holds(rule, inst)
+    # (b) writers
+    m = 0
+    for f in (L.cm, L.dt):
+        seen = set()
+        for r in runs(ctx, f):
+            st = [(i, e) for i, e in r.effects() if e.kind == "store" and e.target[0] == "sub" and e.target[2] == ("c", "state") and root_field(e.target) == "_snd_buffer"]
+            for i, e in st:
+                dls = [(j, x) for j, x in r.effects() if x.kind == "store" and x.target == sub(e.target[1], "deadline")]
+                if not dls or id(e.node) in seen:
+                    continue
+                seen.add(id(e.node))
+                m += 1
+                inst = "%s %s [%s]: state stored before the deadline that makes the job thread look" % (L.tag, f.name, _ctl_label(L, lits(r.guards(i))))
+                if any(j < i for j, _ in dls):
+                    ctx.violated(rule, f, inst, "the new deadline is stored before the new state: the job thread can see the expired deadline while the "
+                                 "state still names the previous phase", e.node)
+                else:
+                    ctx.holds(rule, inst)
+    if m == 0:
+        ctx.unknown(rule, "%s: no receive-path update of state and deadline found" % L.cls)
